@@ -47,7 +47,8 @@ def resync (pre post : St Float) (obs : List Rec) : St Float :=
     us.map fun u =>
       if r.int "t" != u.id then u
       else if r.name == "HPChange" then
-        { u with hpRatio := r.flt "newr", life := if r.flt "newr" > 0 then .alive else u.life }
+        -- a unit at zero HP is not alive, whatever took the HP away (a `LimboWaitHeal` answer may hold it in limbo)
+        { u with hpRatio := r.flt "newr", life := if r.flt "newr" > 0 then .alive else .dead }
       else if r.name == "LimboWaitHeal" then { u with life := if r.bool "c" then .limbo else .dead }
       else if r.name == "EnergyChange" then { u with energy := r.flt "new" }
       else if r.name == "StanceChange" then { u with stance := r.flt "new" }
